@@ -8,6 +8,22 @@ TB = ("Trusted: CBMC 6.11 (goto-cc, goto-instrument --dfcc, cbmc + MiniSat/kissa
       "Every remaining assumption is listed by the check itself in evidence.assumptions.")
 
 CHECKS = {
+ "C02": dict(
+   cat="proof",
+   text="FRAGMENT (operator level): for each of the 15 int/bool operators the real VM handler (one real vm_core_execute step on a module "
+        "holding that single instruction, any stack contents below the operands) is proved equal to a spec function written from the "
+        "statement (64-bit wrapping add/sub/mul/neg, C99 truncating div/rem, total: x/0=0, INT64_MIN/-1 wraps), no trap, no fault for ALL "
+        "operand values; for MUL/DIV/MOD the generic value (two 64-bit multipliers/dividers compared) is a bounded stand-in on 8-bit operands "
+        "while fault-freedom and the algebraic corner cases are full-domain. Programs (scoping, evaluation order, short circuit, Coq model): not decided.",
+   ref="DESIGN 5/C02, 4.1", note=TB + " Signed wrap-around at -O0 for + - * unary- is an assumption (listed with sites).",
+   tech="CBMC on the real vm_core_execute, one-step harness per opcode (case split over 15 operators), spec functions"),
+ "C08": dict(
+   cat="proof",
+   text="Per accessor: VM (ARR_GET/SET/POP/REMOVE, STRUCT_GET/SET, UNION_FIELD, TUPLE_GET: real one-step harness, index = the full int64 / u16 "
+        "before narrowing, any array length, outside [0,len) => TRAP_ERROR(OUT_OF_BOUNDS), in range => no error, no memory fault) and the native "
+        "runtime dyn_array accessors (contract: reaching the return => index was in range; out of range => the run ended in the abort ghost).",
+   ref="DESIGN 5/C08", note=TB + " Lowering of every source-level indexing construct to these accessors is not decided; exit-status propagation is C10.exit.",
+   tech="CBMC one-step VM harness per accessor opcode + DFCC function contracts on the real dyn_array.c"),
  "C11": dict(
    cat="proof",
    text="Per opcode byte K (all 256, each query full-domain over operand bits and buffer size): real isa_encode and isa_decode are verified "
@@ -17,6 +33,37 @@ CHECKS = {
    ref="DESIGN 5/C11",
    note=TB + " Not decided: the textual assembler/disassembler round trip.",
    tech="CBMC function contracts (DFCC) on the real isa.c, case split over 256 opcode bytes, const-unwind 9/33"),
+ "C12": dict(
+   cat="proof",
+   text="nvm_deserialize under contract for every byte string up to the 100 MB limit (loop contracts, X over section kind): non-NULL => "
+        "magic/version/section_count valid AND the checksum was computed over exactly (data+32,size-32), equals the stored one, and was "
+        "checked before anything was built; every directory entry of an accepted file lies inside the file. CRC burst lemmas L0-L3 on the REAL "
+        "table and the mechanically extracted REAL loop body over the full 2^32/2^40 domains, loop coverage contract of nvm_crc32, header validator contract. "
+        "The induction from the lemmas to 'every burst <= 32 bits is refused' is argued (glue), not machine-checked.",
+   ref="DESIGN 5/C12", note=TB + " Tails / damage wider than 32 bits: probabilistic, not claimed. imports arm of the loader: bounded stand-in.",
+   tech="CBMC DFCC function + loop contracts on the real nvm_format.c; algebraic lemmas on the real CRC table/step"),
+ "C13": dict(
+   cat="proof",
+   text="Loader: memory-safe and terminating for all byte strings <= 100 MB (loop contracts with decreases; X over section kind; imports arm bounded). "
+        "Verifier: verify_structure / verify_function / nvm_verify under contracts with loop contracts: safe, terminating, ok => MOD_WF (function ranges without "
+        "wrap, jump targets, call/string/import/local indices, every function walked to its end). VM: one real vm_core_execute step per opcode from any "
+        "VM_INV state with a materialised footprint: no memory fault, no fatal arithmetic, VM_INV again, no decode error on a verified instruction. "
+        "The induction over steps is glue.",
+   ref="DESIGN 5/C13, 4.1, 4.3", note=TB + " Fixed code layout in step harnesses; heap footprint depth 1; FFI paths excluded by the property; opcodes not closed are listed in the evidence.",
+   tech="CBMC DFCC contracts + loop contracts (loader, verifier); one-step harness per opcode (VM)"),
+ "C15": dict(
+   cat="proof",
+   text="cop_serialize_value / cop_deserialize_value enforced against contracts written from the wire format, per tag; round trip as a lemma over the two contracts: "
+        "void,int,float,bool,opaque and strings of any length/content (U); non-transferable tags recorded; request-buffer capacity obligation (known finding).",
+   ref="DESIGN 5/C15", note=TB + " Arrays: not closed (recorded). Foreign function behaviour in another process: not decided.",
+   tech="CBMC DFCC function contracts on the real cop_protocol.c / vm_ffi.c, case split over value tags"),
+ "C16": dict(
+   cat="proof",
+   text="The peer is nondeterminism in the OS contracts: cop_deserialize_value on ARBITRARY bytes is memory-safe and returns 0 or a well-formed value (X over tag class, "
+        "recursion by --enforce-contract-rec, loop contract); read_all/write_all/cop_recv_header/cop_send under loop contracts; vm_ffi_call_cop and vm_ffi_cop_stop "
+        "for every peer behaviour: no fault, failure => co-process reaped and fds reset. Unbounded recursion depth is a recorded finding.",
+   ref="DESIGN 5/C16", note=TB + " OS process table, SIGPIPE disposition, timing: not decided. Termination of EINTR retry loops only for finitely many no-progress answers.",
+   tech="CBMC DFCC function/loop contracts with adversarial OS stubs on the real cop_protocol.c / vm_ffi.c"),
 }
 
 NOT_YET = {
